@@ -39,3 +39,9 @@ package annotations
 //@ loop 0 invariant forall(i, 0, len(attributes), attributes[i] != nil && fresh(attributes[i]))
 //@ loop 0 invariant forall(k, 0, _n, 0 <= countName(holder, attribute, k) && countName(holder, attribute, k) <= countName(holder, attribute, _n))
 //@ loop 0 invariant forall(k, 0, _n, implies(holder.attributes[k].Name == attribute, countName(holder, attribute, k) < countName(holder, attribute, _n) && *attributes[countName(holder, attribute, k)] == holder.attributes[k]))
+
+// GetCastProperty uses reflection: outside the verified subset, contract assumed.
+//@ func GetCastProperty trusted
+//@ ensures implies(result1 != nil, result0 == nil)
+//@ ensures implies(result0 != nil, fresh(result0))
+//@ ensures implies(!indom(attrib.Properties, property), result0 == nil && result1 == nil)
